@@ -1,10 +1,10 @@
 CONSTANTS MaxSteps = 3
-          Stride = 8
-          PoolStride = 173
+          Stride = 4
+          PoolStride = 97
           ZStride = 25
           Gen = FALSE
           Form = "pairs"
-          Memo = "conv"
+          Memo = "none"
           Variant = "plain"
 SPECIFICATION Spec
 INVARIANT TypeOK
